@@ -2121,6 +2121,15 @@ func parseJSONLiteral(s string) (Node, error) {
 
 func parseQuotedIdentifier(s string) (string, error) {
 	v := s[1 : len(s)-1]
+
+	// The grammar's unescaped-char starts at U+0020: as in a JSON string, a
+	// control character can only be written as an escape.
+	for i := 0; i < len(v); i++ {
+		if v[i] < 0x20 {
+			return "", &invalidQuotedStringError{s}
+		}
+	}
+
 	i := strings.IndexByte(v, '\\')
 	if i == -1 || i+1 == len(v) {
 		return v, nil
